@@ -409,20 +409,25 @@ def search_exprs(ctx: Ctx) -> SearchResult:
 				g = X.Gen(rng, SEARCH_ENV, 'search')
 				t = g.pick_ty(2) if rng.random() < 0.8 else ('list', ('opt', X.INT))
 				if i == 1:
-					# one slice of a tuple per program. Literal (>= 0) or omitted bounds are the repaired domain (c5f6dc1, key tuple-slice:
-					# a mismatch is a violation): every combination of omitted / in-range / out-of-range / crossing bounds over tuples of
-					# 2..5 elements, as a parameter, a literal, a call result or an element of a list. Negative / computed bounds are
-					# the known finding tuple-slice-nonliteral-bounds (low rate).
+					# one slice of a tuple per program. Omitted, literal and SIGNED literal bounds are the repaired domain (c5f6dc1, da8b916, key
+					# tuple-slice: a mismatch is a violation): every combination of omitted / in-range / out-of-range / crossing / negative
+					# bounds over tuples of 2..5 elements, as a parameter, a literal, a call result or an element of a list. Computed
+					# bounds are what is left of the known finding tuple-slice-nonliteral-bounds (low rate).
 					tv, n = rng.choice([('t', 2), ('tt', 3), ('(a, s, b, p)', 4), ('(s, a)', 2), ('(b, s, a, p, s)', 5), ('[tt, tt][0]', 3), ('(a, (s, b), xs)', 3)])
 					if rng.random() < 0.08:
-						lo, hi = rng.choice(['', '0', '1', '-1', '-2', 'a', 'c']), rng.choice(['', '1', '2', '-1', 'a'])
-						if not (lo.startswith('-') or lo in ('a', 'c') or hi.startswith('-') or hi == 'a'):
-							lo = '-1'
+						lo, hi = rng.choice(['', '0', '1', 'a', 'c', 'a - 1', '1 - 1']), rng.choice(['', '1', '2', 'a', 'c + 1', '1 + 1'])
+						if lo in ('', '0', '1') and hi in ('', '1', '2'):
+							lo = 'a'
 						fns.append(f'{tv}[{lo}:{hi}]')   # the known form stands alone: its value is not used again
 						continue
 					else:
-						lo = '' if rng.random() < 0.35 else str(rng.randint(0, n + 1))
-						hi = '' if rng.random() < 0.45 else str(rng.randint(0, n + 1))
+						def bound(p_omit: float) -> str:
+							r2 = rng.random()
+							if r2 < p_omit:
+								return ''
+							k = rng.randint(0, n + 1)
+							return str(k) if r2 < p_omit + 0.35 else f'-{k}' if r2 < 0.93 else f'+{k}'
+						lo, hi = bound(0.3), bound(0.4)
 					e1 = f'{tv}[{lo}:{hi}]'
 					r = rng.random()
 					fns.append(e1 if r < 0.5 else f'[{e1}, {e1}]' if r < 0.7 else f'{e1} if p else {e1}' if r < 0.8 else f'{{s: {e1}}}' if r < 0.9 else f'[z for z in [{e1}]]')
@@ -513,7 +518,7 @@ STATEMENTS: dict[str, str] = {
 	'dunder': 'every scalar binary-operator row (class, dunder, argument type) -> return type of the table generated from classes.py states CPython\'s result type (all operand values; 56 rows today, decided over the whole table)',
 	'dunder_unary': 'the __neg__/__pos__ rows state CPython\'s result type',
 	'step_agreement': 'on scalar operands one step of each_binary_operator gives CPython\'s type whenever CPython accepts the operands (no scalar disagreement left since 4f4a122)',
-	'sound_conf': 'THE property sentence on the model: on Core (incl. unary on bool, bool|int, tuple slices with literal bounds, stub calls, comprehensions) infer succeeds from every session state, leaves it untouched, and the inferred type denotes the value CPython computes (induction over expressions)',
+	'sound_conf': 'THE property sentence on the model: on Core (incl. unary on bool, bool|int, tuple slices with omitted / literal / signed literal bounds, stub calls, comprehensions) infer succeeds from every session state, leaves it untouched, and the inferred type denotes the value CPython computes (induction over expressions)',
 	'sound': 'same hypotheses + determined value + plain inferred type: infer Γ e = ok (typeOf v)',
 	'total': 'on Core inference never fails and the inferred type contains no Unknown (env without Unknown)',
 	'session_independent': 'for EVERY expression (also ill-typed ones): infer Γ e s = ((infer Γ e false).1, s) — no handler reads or writes the session state (false before 401dc97)',
@@ -532,7 +537,7 @@ STATEMENTS: dict[str, str] = {
 	'abs_bool_counterexample': 'known finding abs-of-bool: abs(True) typed bool, CPython: int',
 	'list_items_counterexample': 'known finding list-of-dict-items: list(d.items()) typed list<str>, CPython: list of (key, value) tuples',
 	'boolop_counterexample': 'known finding boolop-nonbool-operands: 1 and 2 typed bool, CPython: int 2',
-	'tuple_slice_negative_counterexample': 'known finding tuple-slice-nonliteral-bounds: t[-1:] keeps the whole tuple type',
+	'tuple_slice_computed_counterexample': 'known finding tuple-slice-nonliteral-bounds (computed bounds only since da8b916; signed literal bounds are in Core and proved sound): t[0 + 1:] keeps the whole tuple type',
 	'ternary_union_counterexample': 'known finding ternary-union-of-containers: ([a] if p else [None]) * 2 — inference fails (OperationNotAllowed) on an expression CPython evaluates',
 }
 
